@@ -294,10 +294,19 @@ ssize_t recvmsg(int fd, struct msghdr *m, int flags) {
     errno = e; return r;
 }
 
+/* vshim_recv_eintr(n): the n-th following recv() of the calling thread on a tracked socket is interrupted by a signal
+   (returns -1 / EINTR, nothing consumed); 0 = off */
+static __thread long recv_eintr_at = 0;
+void vshim_recv_eintr(long n) { recv_eintr_at = n; }
+
 ssize_t recv(int fd, void *b, size_t n, int flags) {
     init_once(); RESOLVE(recv);
     if (!is_tracked(fd)) return r_recv(fd, b, n, flags);
     tick();
+    if (recv_eintr_at > 0 && --recv_eintr_at == 0) {
+        logf_("recv fd=%d cap=%zu res=-1 errno=%d injected=1", fd, n, EINTR);
+        errno = EINTR; return -1;
+    }
     ssize_t r = r_recv(fd, b, n, flags); int e = errno;
     logf_("recv fd=%d cap=%zu res=%zd errno=%d", fd, n, r, r < 0 ? e : 0);
     errno = e; return r;
